@@ -459,7 +459,7 @@ theorem close_pieces {t t' : Tree} {fuel win p : Nat} {w : Win} (hh : WinTree.cl
     ∃ pw tb tc, Live t p pw ∧ win ∈ pw.children ∧ (∀ i : Nat, tb.wins[i]? = removedStore t win p w pw i) ∧
       tb.wins.size = t.wins.size ∧ tb.root.damage = t.root.damage ∧ tb.root.needsExpose = t.root.needsExpose ∧
       tb.root.needsLater = t.root.needsLater ∧ tb.root.needsRestore = t.root.needsRestore ∧
-      (t.root.changes = [] → tb.root.changes = []) ∧
+      (∀ q ∈ tb.root.changes, q ∈ t.root.changes) ∧
       (if w.isVisible = true then expose tb fuel p (some w.rect) else pure tb) = .ok tc ∧
       t'.root = tc.root ∧ ∀ i : Nat, t'.wins[i]? = closedStore t win p w pw i := by
   unfold WinTree.close at hh
@@ -469,15 +469,16 @@ theorem close_pieces {t t' : Tree} {fuel win p : Nat} {w : Win} (hh : WinTree.cl
   simp only [hp, bind_ok] at hh
   obtain ⟨t1, hpurge, t3, hrem, hmod⟩ := hh
   obtain ⟨hw1, hd1, he1, hl1, hq1⟩ := purge_spec t fuel win t1 hpurge
-  have hr1 : t1.root.needsRestore = t.root.needsRestore := by
+  have hr1 : t1.root.needsRestore = t.root.needsRestore ∧ ∀ q ∈ t1.root.changes, q ∈ t.root.changes := by
     unfold purgeHierarchyChanges at hpurge
     simp only [bind_ok] at hpurge
     obtain ⟨_, _, _, _, hpurge⟩ := hpurge
     split at hpurge
-    · simp only [pure_ok] at hpurge; subst hpurge; rfl
+    · simp only [pure_ok] at hpurge; subst hpurge; exact ⟨rfl, fun _ => id⟩
     · simp only [bind_ok, pure_ok] at hpurge
       obtain ⟨_, _, hpurge⟩ := hpurge
-      subst hpurge; rfl
+      subst hpurge; exact ⟨rfl, fun q hq => (List.mem_filter.mp hq).1⟩
+  obtain ⟨hr1, hq1'⟩ := hr1
   unfold doHierarchyChange at hrem
   simp only [bind_ok, pure_ok] at hrem
   obtain ⟨pw, hgp, w1, hgw1, cs, hcs, w2, hgw2, t2, ht2, hrem⟩ := hrem
@@ -528,7 +529,7 @@ theorem close_pieces {t t' : Tree} {fuel win p : Nat} {w : Win} (hh : WinTree.cl
     simp at this; exact this.symm
   subst hw4
   refine ⟨pw, t2, t3, hpw, hin, hl2, by rw [← ht2]; simp [WinTree.set, hw1], by rw [hr2]; exact hd1, by rw [hr2]; exact he1,
-    by rw [hr2]; exact hl1, by rw [hr2]; exact hr1, fun hq => by rw [hr2]; exact hq1 hq, hrem, ?_, ?_⟩
+    by rw [hr2]; exact hl1, by rw [hr2]; exact hr1, by rw [hr2]; exact hq1', hrem, ?_, ?_⟩
   · rw [← hmod]; rfl
   · intro i
     rw [← hmod]
@@ -1235,19 +1236,20 @@ theorem newWindow_step {t t' : Tree} {par0 : Nat} {rect0 : Rect} {rp hid low st 
 
 /-! ### Part 3: what every operation does to the flags -/
 
-/-- Flags only go up, and an empty queue stays empty. -/
+/-- Flags only go up, and nothing is added to the queue. -/
 def RootKeeps (r r' : Root) : Prop :=
   (r.needsRestore = true → r'.needsRestore = true) ∧ (r.needsExpose = true → r'.needsExpose = true) ∧
-  (r.needsLater = true → r'.needsLater = true) ∧ (r.changes = [] → r'.changes = [])
+  (r.needsLater = true → r'.needsLater = true) ∧ (∀ q ∈ r'.changes, q ∈ r.changes)
 
-theorem rootKeeps_refl (r : Root) : RootKeeps r r := ⟨id, id, id, id⟩
+theorem rootKeeps_refl (r : Root) : RootKeeps r r := ⟨id, id, id, fun _ => id⟩
 theorem rootKeeps_trans {a b c : Root} (h1 : RootKeeps a b) (h2 : RootKeeps b c) : RootKeeps a c :=
-  ⟨fun h => h2.1 (h1.1 h), fun h => h2.2.1 (h1.2.1 h), fun h => h2.2.2.1 (h1.2.2.1 h), fun h => h2.2.2.2 (h1.2.2.2 h)⟩
+  ⟨fun h => h2.1 (h1.1 h), fun h => h2.2.1 (h1.2.1 h), fun h => h2.2.2.1 (h1.2.2.1 h),
+   fun q h => h1.2.2.2 q (h2.2.2.2 q h)⟩
 
 theorem rootKeeps_of_step {r r' : Root} (h : RootStep r r') : RootKeeps r r' := by
   rcases h with h | h
   · rw [h]; exact rootKeeps_refl _
-  · rw [h]; exact ⟨fun _ => rfl, id, fun _ => rfl, id⟩
+  · rw [h]; exact ⟨fun _ => rfl, id, fun _ => rfl, fun _ => id⟩
 
 theorem expose_keeps : ∀ (fuel : Nat) (t : Tree) (win : Nat) (r : Option Rect) (t' : Tree),
     expose t fuel win r = .ok t' → RootKeeps t.root t'.root := by
@@ -1272,7 +1274,7 @@ theorem expose_keeps : ∀ (fuel : Nat) (t : Tree) (win : Nat) (r : Option Rect)
           · simp only [pure_ok] at h; subst h; exact rootKeeps_refl _
           · split at h
             · cases h
-            · simp only [pure_ok] at h; subst h; exact ⟨id, fun _ => rfl, fun _ => rfl, id⟩
+            · simp only [pure_ok] at h; subst h; exact ⟨id, fun _ => rfl, fun _ => rfl, fun _ => id⟩
 
 theorem pending_keeps {t t' : Tree} (h : RootKeeps t.root t'.root) (hp : Pending t) : Pending t' := by
   obtain ⟨h1, h2⟩ := hp
@@ -1407,358 +1409,6 @@ theorem newWindow_keeps {t t' : Tree} {F par0 : Nat} {rect0 : Rect} {rp hid low 
   split at hexp
   · exact expose_keeps _ _ _ _ _ hexp
   · simp only [pure_ok] at hexp; subst hexp; exact rootKeeps_refl _
-
-/-! ### Part 4: histories -/
-
-/-- The operations the property quantifies over.  A geometry change comes with the exposes of the old and the new area
-    in the parent (C01's proviso, adopted by the property's design). -/
-inductive Op where
-  | newWin (parent : Nat) (rect : Rect) (rootParent hidden lowest steal : Bool)
-  | focus (win : Nat)
-  | curpos (win : Nat) (line col : Int)
-  | curvis (win : Nat) (v : Int)
-  | curshape (win : Nat) (v : Int)
-  | curblink (win : Nat) (v : Int)
-  | notify (win : Nat) (v : Int)
-  | showW (win : Nat)
-  | hideW (win : Nat)
-  | closeW (win : Nat)
-  | restack (ch : Change) (win : Nat)
-  | move (win : Nat) (rect : Rect)
-  | exposeW (win : Nat) (rect : Option Rect)
-  | flush
-
-/-- Tree and terminal cursor. -/
-structure HSt where
-  tree : Tree
-  term : TermCursor := {}
-
-def stepOp (fx : Fixes) (s : HSt) : Op → Res HSt
-  | .newWin p r a b c d => do
-    -- fuel: enough for the store with the new window in it
-    let x ← newWindow s.tree (treeFuel s.tree + 1) p r a b c d
-    pure { s with tree := x.1 }
-  | .focus w => do let x ← takeFocus fx s.tree w; pure { s with tree := x.1 }
-  | .curpos w l c => do let t ← setCursorPosition s.tree w l c; pure { s with tree := t }
-  | .curvis w v => do let t ← setCursorVisible s.tree w v; pure { s with tree := t }
-  | .curshape w v => do let t ← setCursorShape s.tree w v; pure { s with tree := t }
-  | .curblink w v => do let t ← setCursorBlink s.tree w v; pure { s with tree := t }
-  | .notify w v => do let t ← setFocusChildNotify s.tree w v; pure { s with tree := t }
-  | .showW w => do let t ← showWin fx s.tree w; pure { s with tree := t }
-  | .hideW w => do let t ← hideWin fx s.tree w; pure { s with tree := t }
-  | .closeW w => do let t ← closeWin fx s.tree w; pure { s with tree := t }
-  | .restack ch w => do let t ← requestHierarchyChange s.tree (treeFuel s.tree) ch w; pure { s with tree := t }
-  | .move w r => do
-    let t ← setGeometryExposed s.tree (treeFuel s.tree) w r
-    pure { s with tree := t }
-  | .exposeW w r => do let t ← expose s.tree (treeFuel s.tree) w r; pure { s with tree := t }
-  | .flush => do
-    let o ← WinFocus.flush fx s.tree
-    pure { tree := o.tree, term := s.term.applyAll o.calls }
-
-def runOps (fx : Fixes) (s : HSt) : List Op → Res HSt
-  | [] => pure s
-  | op :: rest => do
-    let s' ← stepOp fx s op
-    runOps fx s' rest
-
-/-- Histories the composition theorem covers so far: no restacking requests (their application inside the flush has no
-    step lemma yet), and the root window is not moved (its geometry follows the terminal). -/
-def Op.plain : Op → Prop
-  | .restack _ _ => False
-  | .move w _ => w ≠ 0
-  | _ => True
-
-/-- The invariant of a history: the store and the flags are in order, nothing is queued, and the terminal cursor is
-    what the property says — or something is pending that will make the next flush re-establish it. -/
-structure HInv (s : HSt) : Prop where
-  good : Good15 s.tree
-  noQueue : s.tree.root.changes = []
-  sync : Pending s.tree ∨ s.term.matches (cursorSpec s.tree) = true
-
-theorem hinv_of_step {s : HSt} {t' : Tree} (hi : HInv s) (hg' : Good15 t') (hk : RootKeeps s.tree.root t'.root)
-    (hr : Pending t' ∨ cursorSpec t' = cursorSpec s.tree) : HInv { s with tree := t' } := by
-  refine ⟨hg', hk.2.2.2 hi.noQueue, ?_⟩
-  rcases hi.sync with hp | hm
-  · exact .inl (pending_keeps hk hp)
-  · rcases hr with hp | he
-    · exact .inl hp
-    · exact .inr (by show s.term.matches (cursorSpec t') = true; rw [he]; exact hm)
-
-theorem notify_requests {t t' : Tree} {win : Nat} {v : Int} (hh : setFocusChildNotify t win v = .ok t') :
-    cursorSpec t' = cursorSpec t := by
-  unfold setFocusChildNotify WinTree.modify at hh
-  simp only [bind_ok, pure_ok] at hh
-  obtain ⟨w, hgw, ht1⟩ := hh
-  have hw := (get_ok.mp hgw).1
-  subst ht1
-  apply cursorSpec_agree (agree_set (w' := { w with focusChildNotify := bit1 v }) hw rfl)
-  intro a a' ha ha'
-  left
-  rw [set_lookup hw] at ha'
-  by_cases he : win = chainEnd t (treeFuel t) 0
-  · simp only [he, if_true] at ha'
-    rw [← he, hw] at ha; cases ha; cases ha'; exact ⟨rfl, rfl⟩
-  · simp only [he, if_false] at ha'
-    rw [ha] at ha'; cases ha'; exact ⟨rfl, rfl⟩
-
-/-- What the flush does when nothing is queued. -/
-theorem flush_noqueue {fx : Fixes} {t : Tree} {out : FlushOut} (hq : t.root.changes = []) (hf : flush fx t = .ok out) :
-    out.tree.wins = t.wins ∧ out.tree.root.changes = [] ∧
-    (t.root.needsLater = false → out.tree = t ∧ out.calls = []) ∧
-    (t.root.needsLater = true → out.tree.root.needsLater = false ∧ out.tree.root.needsExpose = false ∧
-      out.tree.root.needsRestore = false ∧
-      (out.tree.root.damage = [] ∨ (t.root.needsExpose = false ∧ out.tree.root.damage = t.root.damage)) ∧
-      (t.root.needsRestore = false → t.root.needsExpose = false → out.calls = [])) := by
-  unfold flush at hf
-  cases hl : t.root.needsLater with
-  | false =>
-    simp only [hl, Bool.not_false, if_true, pure_ok] at hf
-    subst hf
-    exact ⟨rfl, hq, fun _ => ⟨rfl, rfl⟩, (fun h => by cases h)⟩
-  | true =>
-    simp only [hl, Bool.not_true, Bool.false_eq_true, if_false, bind_ok, hq, applyChanges, pure_ok] at hf
-    obtain ⟨t1, ht1, hf⟩ := hf
-    subst ht1
-    unfold flushRestore flushExpose at hf
-    cases he : t.root.needsExpose with
-    | true =>
-      simp only [he, if_true, bind_ok, pure_ok] at hf
-      obtain ⟨c2, _, hf⟩ := hf
-      subst hf
-      exact ⟨rfl, rfl, (fun h => by cases h), fun _ => ⟨rfl, rfl, rfl, .inl rfl, (fun _ h => by cases h)⟩⟩
-    | false =>
-      simp only [he, Bool.false_eq_true, if_false] at hf
-      cases hr : t.root.needsRestore with
-      | true =>
-        simp only [hr, if_true, bind_ok, pure_ok] at hf
-        obtain ⟨c2, _, hf⟩ := hf
-        subst hf
-        exact ⟨rfl, rfl, (fun h => by cases h), fun _ => ⟨rfl, rfl, rfl, .inr ⟨rfl, rfl⟩, (fun h => by cases h)⟩⟩
-      | false =>
-        simp only [hr, Bool.false_eq_true, if_false, pure_ok] at hf
-        subst hf
-        exact ⟨rfl, rfl, (fun h => by cases h), fun _ => ⟨rfl, rfl, rfl, .inr ⟨rfl, rfl⟩, fun _ _ => rfl⟩⟩
-
-/-- The flush: afterwards the invariant holds *and* the terminal cursor is what the property says. -/
-theorem flush_step {fx : Fixes} (hfx : fx.hiddenRoot = true) {s s' : HSt} (hi : HInv s)
-    (hs : stepOp fx s .flush = .ok s') : HInv s' ∧ s'.term.matches (cursorSpec s'.tree) = true := by
-  simp only [stepOp, bind_ok, pure_ok] at hs
-  obtain ⟨o, hf, hs⟩ := hs
-  subst hs
-  obtain ⟨hwins, hq', hno, hyes⟩ := flush_noqueue hi.noQueue hf
-  have hwf' : wfB o.tree = true := by rw [wfB_wins hwins]; exact hi.good.wf
-  cases hl : s.tree.root.needsLater with
-  | false =>
-    obtain ⟨ht, hc⟩ := hno hl
-    have hm : s.term.matches (cursorSpec s.tree) = true := by
-      rcases hi.sync with ⟨_, h2⟩ | hm
-      · rw [hl] at h2; cases h2
-      · exact hm
-    have hm' : (s.term.applyAll o.calls).matches (cursorSpec o.tree) = true := by
-      rw [hc, ht]; exact hm
-    exact ⟨⟨by rw [ht]; exact hi.good, hq', .inr hm'⟩, hm'⟩
-  | true =>
-    obtain ⟨a, b, c, hd, hcalls⟩ := hyes hl
-    have hdmg : o.tree.root.damage = [] := by
-      rcases hd with hd | ⟨he, hd⟩
-      · exact hd
-      · rw [hd]
-        cases hdd : s.tree.root.damage with
-        | nil => rfl
-        | cons x xs =>
-          have := hi.good.flagged (by rw [hdd]; simp)
-          rw [he] at this; cases this
-    have hg' : Good15 o.tree :=
-      good15_of hi.good hwf' (fun x => by rw [hwins]) (by rw [hdmg]; intro x hx; cases hx)
-        (fun hne => absurd hdmg hne) (by rw [b, c]; intro h; rcases h with h | h <;> cases h)
-    have hm' : (s.term.applyAll o.calls).matches (cursorSpec o.tree) = true := by
-      by_cases hp : s.tree.root.needsRestore = true ∨ s.tree.root.needsExpose = true
-      · exact flush_spec fx hf hl hp hwf' (.inl hfx) s.term
-      · have h1 : s.tree.root.needsRestore = false := by
-          cases h : s.tree.root.needsRestore with
-          | false => rfl
-          | true => exact absurd (.inl h) hp
-        have h2 : s.tree.root.needsExpose = false := by
-          cases h : s.tree.root.needsExpose with
-          | false => rfl
-          | true => exact absurd (.inr h) hp
-        rw [hcalls h1 h2, cursorSpec_wins hwins]
-        rcases hi.sync with ⟨h3, _⟩ | hm
-        · exact absurd h3 hp
-        · exact hm
-    exact ⟨⟨hg', hq', .inr hm'⟩, hm'⟩
-
-/-- Every other operation of a plain history keeps the invariant (repaired source). -/
-theorem plain_step {fx : Fixes} (hfx1 : fx.hiddenRoot = true) (hfx2 : fx.chainRestore = true) {s s' : HSt} {op : Op}
-    (hop : op.plain) (hi : HInv s) (hs : stepOp fx s op = .ok s') : HInv s' := by
-  cases op with
-  | restack ch w => exact absurd hop (by simp [Op.plain])
-  | flush => exact (flush_step hfx1 hi hs).1
-  | newWin p r a b c d =>
-    simp only [stepOp, bind_ok, pure_ok] at hs
-    obtain ⟨x, hx, hs⟩ := hs; subst hs
-    obtain ⟨t', id⟩ := x
-    obtain ⟨hg', hr⟩ := newWindow_step hi.good hx
-    exact hinv_of_step hi hg' (newWindow_keeps hx) hr
-  | focus w =>
-    simp only [stepOp, bind_ok, pure_ok] at hs
-    obtain ⟨x, hx, hs⟩ := hs; subst hs
-    exact hinv_of_step hi (takeFocus_good hi.good hx) (rootKeeps_of_step (focusGained_rootStep fx _ _ _ _ _ hx))
-      (takeFocus_requests hi.good.wf hx)
-  | curpos w l c =>
-    simp only [stepOp, bind_ok, pure_ok] at hs
-    obtain ⟨x, hx, hs⟩ := hs; subst hs
-    have hk : RootKeeps s.tree.root x.root := by
-      unfold setCursorPosition at hx
-      simp only [bind_ok] at hx
-      obtain ⟨t1, hm, hr⟩ := hx
-      have hr1 : t1.root = s.tree.root := by
-        unfold WinTree.modify at hm; simp only [bind_ok, pure_ok] at hm
-        obtain ⟨_, _, hm⟩ := hm; subst hm; rfl
-      rw [← hr1]; exact rootKeeps_of_step (restoreIfFocused_rootStep hr).2
-    exact hinv_of_step hi (cursor_setter_good (fun cu => { cu with line := l, col := c }) hi.good hx) hk
-      (cursor_setter_requests (fun cu => { cu with line := l, col := c }) hx)
-  | curvis w v =>
-    simp only [stepOp, bind_ok, pure_ok] at hs
-    obtain ⟨x, hx, hs⟩ := hs; subst hs
-    have hk : RootKeeps s.tree.root x.root := by
-      unfold setCursorVisible at hx
-      simp only [bind_ok] at hx
-      obtain ⟨t1, hm, hr⟩ := hx
-      have hr1 : t1.root = s.tree.root := by
-        unfold WinTree.modify at hm; simp only [bind_ok, pure_ok] at hm
-        obtain ⟨_, _, hm⟩ := hm; subst hm; rfl
-      rw [← hr1]; exact rootKeeps_of_step (restoreIfFocused_rootStep hr).2
-    exact hinv_of_step hi (cursor_setter_good (fun cu => { cu with visible := bit1 v }) hi.good hx) hk
-      (cursor_setter_requests (fun cu => { cu with visible := bit1 v }) hx)
-  | curshape w v =>
-    simp only [stepOp, bind_ok, pure_ok] at hs
-    obtain ⟨x, hx, hs⟩ := hs; subst hs
-    have hk : RootKeeps s.tree.root x.root := by
-      unfold setCursorShape at hx
-      simp only [bind_ok] at hx
-      obtain ⟨t1, hm, hr⟩ := hx
-      have hr1 : t1.root = s.tree.root := by
-        unfold WinTree.modify at hm; simp only [bind_ok, pure_ok] at hm
-        obtain ⟨_, _, hm⟩ := hm; subst hm; rfl
-      rw [← hr1]; exact rootKeeps_of_step (restoreIfFocused_rootStep hr).2
-    exact hinv_of_step hi (cursor_setter_good (fun cu => { cu with shape := v }) hi.good hx) hk
-      (cursor_setter_requests (fun cu => { cu with shape := v }) hx)
-  | curblink w v =>
-    simp only [stepOp, bind_ok, pure_ok] at hs
-    obtain ⟨x, hx, hs⟩ := hs; subst hs
-    have hk : RootKeeps s.tree.root x.root := by
-      unfold setCursorBlink at hx
-      simp only [bind_ok] at hx
-      obtain ⟨t1, hm, hr⟩ := hx
-      have hr1 : t1.root = s.tree.root := by
-        unfold WinTree.modify at hm; simp only [bind_ok, pure_ok] at hm
-        obtain ⟨_, _, hm⟩ := hm; subst hm; rfl
-      rw [← hr1]; exact rootKeeps_of_step (restoreIfFocused_rootStep hr).2
-    exact hinv_of_step hi (cursor_setter_good (fun cu => { cu with blink := if v ≠ 0 then 1 else 0 }) hi.good hx) hk
-      (cursor_setter_requests (fun cu => { cu with blink := if v ≠ 0 then 1 else 0 }) hx)
-  | notify w v =>
-    simp only [stepOp, bind_ok, pure_ok] at hs
-    obtain ⟨x, hx, hs⟩ := hs; subst hs
-    have hk : RootKeeps s.tree.root x.root := by
-      unfold setFocusChildNotify WinTree.modify at hx
-      simp only [bind_ok, pure_ok] at hx
-      obtain ⟨_, _, hx⟩ := hx; subst hx; exact rootKeeps_refl _
-    exact hinv_of_step hi (notify_good hi.good hx) hk (.inr (notify_requests hx))
-  | showW w =>
-    simp only [stepOp, bind_ok, pure_ok] at hs
-    obtain ⟨x, hx, hs⟩ := hs; subst hs
-    exact hinv_of_step hi (show_good hi.good hx) (showWin_keeps hi.good hx) (show_requests hfx2 hi.good hx)
-  | hideW w =>
-    simp only [stepOp, bind_ok, pure_ok] at hs
-    obtain ⟨x, hx, hs⟩ := hs; subst hs
-    exact hinv_of_step hi (hide_good hi.good hx) (hideWin_keeps hi.good hx) (hide_requests hfx1 hfx2 hi.good hx)
-  | closeW w =>
-    simp only [stepOp, bind_ok, pure_ok] at hs
-    obtain ⟨x, hx, hs⟩ := hs; subst hs
-    exact hinv_of_step hi (close_good hi.good hx) (closeWin_keeps hi.good hx) (close_requests hfx2 hi.good hx)
-  | move w r =>
-    simp only [stepOp, bind_ok, pure_ok] at hs
-    obtain ⟨x, hx, hs⟩ := hs; subst hs
-    have h0 : w ≠ 0 := hop
-    exact hinv_of_step hi (move_good hi.good h0 hx) (move_keeps hx)
-      (move_requests hi.good h0 hx (setGeometryExposed_wf hi.good.wf hx))
-  | exposeW w r =>
-    simp only [stepOp, bind_ok, pure_ok] at hs
-    obtain ⟨x, hx, hs⟩ := hs; subst hs
-    exact hinv_of_step hi (expose_good hi.good hx) (expose_keeps _ _ _ _ _ hx)
-      (.inr (cursorSpec_wins (expose_frame _ _ _ _ _ hx).1))
-
-theorem runOps_inv {fx : Fixes} (hfx1 : fx.hiddenRoot = true) (hfx2 : fx.chainRestore = true) :
-    ∀ (ops : List Op) (s s' : HSt), (∀ op ∈ ops, op.plain) → HInv s → runOps fx s ops = .ok s' → HInv s' := by
-  intro ops
-  induction ops with
-  | nil => intro s s' _ hi h; simp only [runOps, pure_ok] at h; subst h; exact hi
-  | cons op rest ih =>
-    intro s s' hp hi h
-    simp only [runOps, bind_ok] at h
-    obtain ⟨s1, h1, h2⟩ := h
-    exact ih s1 s' (fun o ho => hp o (by simp [ho])) (plain_step hfx1 hfx2 (hp op (by simp)) hi h1) h2
-
-theorem runOps_append (fx : Fixes) : ∀ (a b : List Op) (s s' : HSt), runOps fx s (a ++ b) = .ok s' →
-    ∃ s1, runOps fx s a = .ok s1 ∧ runOps fx s1 b = .ok s' := by
-  intro a
-  induction a with
-  | nil => intro b s s' h; exact ⟨s, rfl, h⟩
-  | cons op rest ih =>
-    intro b s s' h
-    simp only [List.cons_append, runOps, bind_ok] at h ⊢
-    obtain ⟨s0, h0, h⟩ := h
-    obtain ⟨s1, h1, h2⟩ := ih b s0 s' h
-    exact ⟨s1, ⟨s0, h0, h1⟩, h2⟩
-
-/-- A fresh root window on an `l × c` terminal is in order, with the first flush pending. -/
-theorem hinv_newRoot (l c : Int) (hl : 0 < l) (hc : 0 < c) : HInv { tree := newRoot l c } := by
-  have hdm : (if 0 < l ∧ 0 < c then [(⟨0, 0, l, c⟩ : Rect)] else []) = [⟨0, 0, l, c⟩] := by simp [hl, hc]
-  have hlook : ∀ (i : Nat) (w : Win), (newRoot l c).wins[i]? = some w →
-      i = 0 ∧ w = { rect := ⟨0, 0, l, c⟩, isRoot := true } := by
-    intro i w hw
-    unfold newRoot at hw
-    simp only [] at hw
-    cases i with
-    | zero => simp at hw; exact ⟨rfl, hw.symm⟩
-    | succ n => simp at hw
-  have hwf : wfB (newRoot l c) = true := by
-    apply wfB_of
-    · exact ⟨{ rect := ⟨0, 0, l, c⟩, isRoot := true }, by unfold newRoot; simp, rfl, rfl, rfl⟩
-    · intro j x hx _
-      obtain ⟨_, rfl⟩ := hlook j x hx
-      exact winOk_intro (fun p hp => by cases hp) (fun ch hch => by cases hch) (fun ch hch => by cases hch)
-  have hroot : (newRoot l c).root = { damage := [⟨0, 0, l, c⟩], needsExpose := true, needsLater := true } := by
-    unfold newRoot; simp only [hdm]; rfl
-  refine ⟨?_, by rw [hroot], .inl ⟨.inr (by rw [hroot]), by rw [hroot]⟩⟩
-  exact { wf := hwf
-          wfp := ⟨fun cur w hw ch hch => by obtain ⟨_, rfl⟩ := hlook cur w hw; cases hch⟩
-          rootWin := ⟨⟨{ rect := ⟨0, 0, l, c⟩, isRoot := true }, by unfold newRoot; simp, rfl, rfl, rfl, rfl, rfl⟩⟩
-          onlyRoot := fun x w hw _ => (hlook x w hw).1
-          nodup := fun cur w hw => by obtain ⟨_, rfl⟩ := hlook cur w hw; simp
-          noSelf := fun x w hw => by obtain ⟨_, rfl⟩ := hlook x w hw; simp
-          pos := fun x w hw _ => by obtain ⟨_, rfl⟩ := hlook x w hw; exact ⟨hl, hc⟩
-          nonempty := by
-            rw [hroot]; intro x hx
-            simp at hx; subst hx; exact ⟨hl, hc⟩
-          flagged := by rw [hroot]; intro _; rfl
-          later := by rw [hroot]; intro _; rfl }
-
-/-- **C15 over histories** (repaired source; histories without restacking requests and without moving the root
-    window): from a fresh root window, after any history that ends in a flush and that the library survives, the
-    terminal cursor is what `cursorSpec` says of the tree. -/
-theorem history_cursor {fx : Fixes} (hfx1 : fx.hiddenRoot = true) (hfx2 : fx.chainRestore = true)
-    (l c : Int) (hl : 0 < l) (hc : 0 < c) (ops : List Op) (hplain : ∀ op ∈ ops, op.plain) (s : HSt)
-    (h : runOps fx { tree := newRoot l c } (ops ++ [.flush]) = .ok s) :
-    s.term.matches (cursorSpec s.tree) = true := by
-  obtain ⟨s1, h1, h2⟩ := runOps_append fx ops [.flush] _ s h
-  have hi1 := runOps_inv hfx1 hfx2 ops _ s1 hplain (hinv_newRoot l c hl hc) h1
-  simp only [runOps, bind_ok, pure_ok] at h2
-  obtain ⟨s2, h2, h3⟩ := h2
-  subst h3
-  exact (flush_step hfx1 hi1 h2).2
 
 end WinFocus
 end Tickit
